@@ -227,6 +227,62 @@ Definition chkA (c : caseA) : bool :=
         && forallb (fun e : string * Z => option_eqb Z.eqb (lookup String.eqb (fst e) bound) (Some (snd e))) ekw
       else false
   end.
+
+(* ---- the model's answers, printed into the replay file of a disagreement *)
+Definition showL (c : caseL) :=
+  let '(tag, fl, v, zs, ex) := c in
+  match tag with
+  | 0 => map Z.of_nat (argsort NumF fl)
+  | 1 => [searchsorted NumF fl v]
+  | 2 => match zs with [a; lo; hi] => [clip a lo hi] | _ => [] end
+  | 3 => match zs with i :: l => [pyget (-777) l i] | _ => [] end
+  | _ => match zs with m :: r => take (-777) (skipn (Z.to_nat m) r) (map Z.to_nat (firstn (Z.to_nat m) r)) | _ => [] end
+  end.
+Definition showI (c : caseI) := let '(kw, xs, ys, f, _) := c in interp1d NumF kw xs ys f.
+Definition showF (c : caseF) :=
+  let '(kw, freqs, f, (rows, cols), D, _) := c in
+  match freq_interp_matrices NumF kw freqs f (mats_of cols D) with
+  | inl e => inl e
+  | inr d => inr (map (fun k => option_map (flat rows cols) (d k)) SCAT_KEYS, freq_interp_warns NumF freqs f)
+  end.
+Definition showC (c : caseC) :=
+  let '(n, kw, freqs, f, D, pts, P, tol, _) := c in
+  map (fun p => match scat_from_data_call NumF P n kw freqs (mats_of n D) (fst p) (snd p) f with
+                | inl e => inl e | inr d => inr (map d SCAT_KEYS) end) pts.
+Definition showS (c : caseS) :=
+  let '(fs, shapes, _) := c in
+  match sfd_init (map Z.to_nat fs) (sd_of (map (option_map (map Z.to_nat)) shapes)) with
+  | inl e => inl e | inr (nf, na) => inr (Z.of_nat nf, Z.of_nat na) end.
+Definition showM (c : caseM) :=
+  let '(n, specs, f0, P, freqs, tc, single, _) := c in
+  if single then
+    inr (Some (map (fun k => option_map (fun dm : dtype * cmat (T:=float) => (fst dm, flatc n (snd dm)))
+                       (as_single_freq_matrices NumF (S_of specs f0) P (hd PrimFloat.zero freqs) n (map key_of tc) k)) SCAT_KEYS))
+  else
+  match as_multi_freq_matrices NumF (S_of specs f0) P freqs n (map key_of tc) with
+  | inl e => inl e
+  | inr None => inr None
+  | inr (Some o) => inr (Some (map (fun k => option_map (fun da : dtype * arr3 (T:=float) =>
+                                     (fst da, flat3 (Z.of_nat (List.length freqs)) n (snd da))) (o k)) SCAT_KEYS))
+  end.
+Definition showD (c : caseD) :=
+  let '(n, kw, freqs, D, P, tol, newf, tc, _) := c in
+  match as_multi_freq_matrices NumF (S_data P n kw freqs (mats_of n D)) P newf n (map key_of tc) with
+  | inl e => inl e
+  | inr None => inr None
+  | inr (Some o) => inr (Some (map (fun k => option_map (fun da : dtype * arr3 (T:=float) =>
+                                     (fst da, map fst (flat3 (Z.of_nat (List.length newf)) n (snd da)))) (o k)) SCAT_KEYS))
+  end.
+Definition showG (c : caseG) := let '(n, P, _, _) := c in let '(a, b) := make_angles_grid NumF P n in (flat n n a, flat n n b).
+Definition showR (c : caseR) :=
+  let '(n, k, items, _) := c in
+  map (fun kv : string * (Z -> Z -> Z) => (fst kv, map (fun t => snd kv (t / n) (t mod n)) (zrange (n * n))))
+      (rotate_matrices_steps n k (map (fun kv : string * list Z => (fst kv, zmat n (snd kv))) items)).
+Definition showT (c : caseT) :=
+  let '(n, P, tol, a, b, items, _) := c in
+  dict_map_values (fun M : fmat => interp NumF P n M a b) (map (fun kv : string * list float => (fst kv, mk_mat n (snd kv))) items).
+Definition showA (c : caseA) :=
+  let '(kind, (vl, vt, rho), args, kwargs, _) := c in scat_factory kind (mk_material vl vt rho) args kwargs.
 """
 
 
@@ -622,6 +678,17 @@ def _evaluate(chk, st):
     """one stream through coqc; returns the failing indices"""
     if not st.lits:
         return []
+    import os
+    import time
+    t0 = time.time()
+    try:
+        return _evaluate1(chk, st)
+    finally:
+        if os.environ.get("TIE_HIST"):
+            print(f"#   coqc [{st.key}] {len(st.lits)} cases {time.time() - t0:.1f}s", flush=True)
+
+
+def _evaluate1(chk, st):
     return chk.coq_failing(f"tie_C10_{st.key.replace('-', '_')}", PRE, st.ctype, st.lits, st.check, shard=150, jobs=4)
 
 
@@ -634,6 +701,10 @@ def run(chk, arim, rng, quick):
         build_freq(chk, arim, rng, 150 * m),
     ]
     streams += BUILD_MORE(chk, arim, rng, m)
+    import os
+    import time
+    if os.environ.get("TIE_HIST"):
+        print(f"#   library side done at {time.time() - chk.t_start:.1f}s", flush=True)
     with ThreadPoolExecutor(max_workers=6) as ex:
         bads = list(ex.map(lambda s: _evaluate(chk, s), streams))
     total = 0
@@ -644,7 +715,7 @@ def run(chk, arim, rng, quick):
             rep["correspondence"] = st.corr
             try:
                 rep["model"] = chk.coq_values(f"tie_C10_diag_{st.key.replace('-', '_')}", PRE,
-                                              [f"let c : {st.ctype} := {st.lits[t]} in {st.check} c"])[-600:]
+                                              [f"show{st.ctype[-1]} ({st.lits[t]})"])[-3000:].strip()
             except Exception as e:  # noqa: BLE001
                 rep["model"] = f"(diagnostic evaluation failed: {e})"
             rep["coq_case"] = st.lits[t][:4000]
@@ -745,8 +816,11 @@ def build_call(chk, arim, rng, N):
                 freqs_arg = [float(freqs[0]), np.float64(freqs[0]), np.asarray(freqs[0])][int(rng.integers(0, 3))]     # 0-d frequencies
             elif rng.random() < 0.3:
                 freqs_arg = list(freqs)
-            obj, via = _make_obj(rng, scat, freqs_arg, D)
-            kwf, how = _mutate_kwargs(rng, obj, cplx_ok=(dtype == "complex"))
+            try:
+                obj, via = _make_obj(rng, scat, freqs_arg, D)
+                kwf, how = _mutate_kwargs(rng, obj, cplx_ok=(dtype == "complex"))
+            except Exception as e:  # noqa: BLE001  (valid shapes: the model builds the object)
+                obj, via, kwf, how = e, "constructor raised " + repr(e), (lambda part: DEFAULT_KW), "default"
             f = gen_newfreq(rng, freqs, kind) if nf else 1.0
             pts = _gen_points(rng, n, int(rng.integers(1, 4)))
             fam = f"{nf if nf < 2 else 'several'} frequencies"
@@ -757,6 +831,8 @@ def build_call(chk, arim, rng, N):
             tc = set(rand_keys(rng, allow_empty=True))            # ignored by the code and absent from the model
         code, res = 0, {}
         try:
+            if isinstance(obj, Exception):
+                raise TypeError("no object")
             with warnings.catch_warnings(), np.errstate(all="ignore"):
                 warnings.simplefilter("ignore")
                 res = obj(inc, out, f) if tc is None else (obj(inc, out, f, tc) if rng.random() < 0.5 else obj(inc, out, f, to_compute=tc))
@@ -767,12 +843,17 @@ def build_call(chk, arim, rng, N):
         tol = 1e-9 * scale
         cplx_keys = [k for k in D if np.iscomplexobj(D[k])]
         parts = [("re", list(D))] + ([("im", cplx_keys)] if cplx_keys else [])
+        if cplx_keys and code == 0 and not all(np.all(np.isfinite(v)) for v in res.values()):
+            # a NaN fill value: the complex arithmetic of the angle kernel turns nan+0j into nan+nanj, so the imaginary part is
+            # not the kernel applied to the imaginary parts; only the real part is compared on such a case
+            parts = parts[:1]
+            chk.count(tie_C10="call:(imaginary part not compared: non-finite values)")
         for part, pk in parts:
             Dp = {k: D[k] for k in pk}
             exp = cpair(cZ(code), _res_lit(res, pk, part) if code == 0 else "[]")
             st.add(cpair(cZ(n), kwf(part), fl(freqs), cfloat(f), Dlit(Dp, part), clist([cpair(cfloat(a), cfloat(b)) for a, b in pts]),
                          cfloat(PI), cfloat(tol), exp),
-                   {"numangles": n, "frequencies": freqs, "constructor": via, "interp_freq_kwargs": repr(obj.interp_freq_kwargs), "kwargs_edit": how,
+                   {"numangles": n, "frequencies": freqs, "constructor": via, "interp_freq_kwargs": repr(getattr(obj, "interp_freq_kwargs", None)), "kwargs_edit": how,
                     "matrices": {k: np.asarray(v) for k, v in D.items()}, "inc_theta": inc, "out_theta": out, "frequency": float(f),
                     "to_compute": None if tc is None else sorted(tc), "part": part, "tolerance": tol,
                     "library": {"code": code, "result": {k: np.asarray(v) for k, v in res.items()} if code == 0 else None}})
@@ -975,7 +1056,10 @@ def build_multi_data(chk, arim, rng, N):
         if i == 0:
             keys = ["LL"]                                        # the note's observation 1: default to_compute -> KeyError
         D = gen_data(rng, nf, n, n, keys, "float")
-        obj, via = _make_obj(rng, scat, freqs, D)
+        try:
+            obj, via = _make_obj(rng, scat, freqs, D)
+        except Exception as e:  # noqa: BLE001
+            obj, via = None, "constructor raised " + repr(e)
         newf = [gen_newfreq(rng, freqs, "dyadic") for _ in range(int(rng.integers(0, 4)) if rng.random() < 0.3 else int(rng.integers(1, 4)))]
         u = rng.random()
         tc = None if (u < 0.4 or i == 0) else (list(keys) if u < 0.7 else rand_keys(rng))
@@ -991,12 +1075,14 @@ def build_multi_data(chk, arim, rng, N):
                 res = _multi_res_lit(out)
         except KeyError:
             code = 2
+        except (AttributeError, ValueError, IndexError, TypeError):
+            code = 99
         tol = 1e-9 * max([1.0] + [float(np.max(np.abs(v))) for v in D.values()]) * 20
         st.add(cpair(cZ(n), DEFAULT_KW, fl(freqs), Dlit(D, "re"), cfloat(PI), cfloat(tol), fl(newf),
                      zl([KEYS.index(k) for k in (KEYS if tc is None else tc)]), cpair(cZ(code), res)),
                {"numangles": n, "frequencies": freqs, "matrices": D, "constructor": via, "new_frequencies": newf, "to_compute": tc,
                 "library": {"code": code, "result": None if code else {k: np.asarray(v) for k, v in out.items()}}})
-        chk.count(tie_C10=f"multi-data:{'all keys' if len(keys) == 4 else 'some keys'}:{'default to_compute' if tc is None else 'to_compute given'}:{['dict', 'None', 'KeyError'][code]}")
+        chk.count(tie_C10=f"multi-data:{'all keys' if len(keys) == 4 else 'some keys'}:{'default to_compute' if tc is None else 'to_compute given'}:{['dict', 'None', 'KeyError'][code] if code < 3 else 'other'}")
     return st
 
 
@@ -1171,18 +1257,21 @@ def build_factory(chk, arim, rng, N):
                 kwargs.append(("min_terms", int(rng.integers(5, 20))))
         elif t == 2 and rng.random() < 0.4:
             kwargs.append(("rayleigh_vel", int(rng.integers(1000, 3000))))
-        obj = scat.scat_factory(kind, material, *args, **dict(kwargs))
+        try:
+            obj = scat.scat_factory(kind, material, *args, **dict(kwargs))
+        except Exception as e:  # noqa: BLE001  (valid arguments: any exception disagrees with the model, which answers with a call)
+            obj = e
         cls = type(obj).__name__
         supplied = {"longitudinal_vel", "transverse_vel"} | {k for k, _ in kwargs} | ({"density"} if t == 1 else set())
         if args:
             supplied.add({1: "crack_length", 3: "radius"}[t])
-        bound = [(k, v) for k, v in obj._scat_kwargs.items() if k in supplied]
+        bound = [(k, v) for k, v in getattr(obj, "_scat_kwargs", {}).items() if k in supplied]
         ok = cls in CTORS and all(v is not None and float(v) == int(v) for _, v in bound)
         exp = (2, "", CTORS.index(cls), [], [(k, int(v)) for k, v in bound]) if ok else (95, "", 0, [], [])
         st.add(cpair(cstr(kind), cpair(cZ(vl), cZ(vt), cZ(rho)), zl(args), clist([cpair(cstr(k), cZ(v)) for k, v in kwargs]),
                      cpair(cZ(exp[0]), cstr(exp[1]), cZ(exp[2]), zl(exp[3]), clist([cpair(cstr(k), cZ(v)) for k, v in exp[4]]))),
                {"kind": kind, "material": [vl, vt, rho], "args": args, "kwargs": kwargs,
-                "library": {"class": cls, "_scat_kwargs": {k: v for k, v in obj._scat_kwargs.items()}}})
+                "library": {"class": cls, "_scat_kwargs": dict(getattr(obj, "_scat_kwargs", {}))}})
         chk.count(tie_C10=f"factory:real object:{cls}")
     return st
 
